@@ -510,6 +510,9 @@ namespace Pistache
                 virtual StepId id() const                 = 0;
                 virtual State apply(StreamCursor& cursor) = 0;
 
+                // Forget any progress made on the current message
+                virtual void reset() { }
+
                 static void raise(const char* msg, Code code = Code::Bad_Request);
 
             protected:
@@ -569,6 +572,12 @@ namespace Pistache
                 StepId id() const override { return Id; }
                 State apply(StreamCursor& cursor) override;
 
+                void reset() override
+                {
+                    bytesRead = 0;
+                    chunk.reset();
+                }
+
             private:
                 struct Chunk
                 {
@@ -580,14 +589,16 @@ namespace Pistache
                         : message(message_)
                         , bytesRead(0)
                         , size(-1)
+                        , alreadyAppendedChunkBytes(0)
                     { }
 
                     Result parse(StreamCursor& cursor);
 
                     void reset()
                     {
-                        bytesRead = 0;
-                        size      = -1;
+                        bytesRead                 = 0;
+                        size                      = -1;
+                        alreadyAppendedChunkBytes = 0;
                     }
 
                 private:
@@ -663,6 +674,8 @@ namespace Pistache
             {
             public:
                 explicit ParserImpl(size_t maxDataSize);
+
+                void reset() override;
 
                 Response response;
             };
